@@ -6,6 +6,7 @@ attributed to the obligation line they (or their instantiation back-trace) point
 """
 import json
 import os
+import re
 import subprocess
 import sys
 import concurrent.futures
@@ -48,8 +49,11 @@ def compile_tu(tu, compiler="g++", std="c++20", extra_flags=(), timeout=600):
     """Returns (results, unattributed): results[line] = list of error messages for that obligation line."""
     d = D.scratch()
     path = os.path.join(d, tu.name + ".cpp")
+    canary_line = len(tu.lines) + 1
     with open(path, "w") as f:
-        f.write(tu.text())
+        # positive control: the last line must be diagnosed, otherwise the compiler stopped early (ICE, fatal error,
+        # resource limit) and every obligation after that point would pass vacuously
+        f.write(tu.text() + 'static_assert(sizeof(char) == 2, "tetl-verif-canary");\n')
     if compiler == "g++":
         cmd = ["g++", "-std=" + std, "-fsyntax-only", "-fmax-errors=0", "-fno-diagnostics-show-caret", "-w",
                "-fdiagnostics-plain-output", "-ftemplate-backtrace-limit=0", "-I" + D.INCLUDE] + list(extra_flags) + [path]
@@ -118,6 +122,11 @@ def compile_tu(tu, compiler="g++", std="c++20", extra_flags=(), timeout=600):
                 cur["done"] = True
         unattributed = ["%s" % u["msg"] for u in unattributed if isinstance(u, dict) and not u.get("done")]
     os.unlink(path)
+    if not re.search(r":%d:\d+: error: static assertion failed: tetl-verif-canary" % canary_line, r.stderr) and \
+            not re.search(r":%d:\d+: error: static_assert failed.*tetl-verif-canary" % canary_line, r.stderr):
+        raise D.AnalysisBroken("witness TU %s: the canary on the last line was not diagnosed (compiler stopped early?): %s" % (
+            tu.name, r.stderr[-300:]))
+    unattributed = [u for u in unattributed if "tetl-verif-canary" not in str(u)]
     return results, unattributed
 
 
